@@ -13,6 +13,7 @@ import Asn1Model.BerFraming
 import Asn1Model.Constraints
 import Asn1Model.TypeCheck
 import Asn1Model.Cache
+import Asn1Model.X696
 /-
   Line protocol: one request per line `op<TAB>arg...`, args are S-expressions.
   One answer line per request.  Everything printed is canonical.
@@ -208,6 +209,26 @@ def opEnc (args : List Sx) : String :=
     | none, _ => "bad-type"
     | _, none => "bad-value"
   | _ => "bad-args"
+
+/-- `spec <codec> <ty> <val>`: the encoding the *standard* prescribes (S-level specification) and the
+names of the kinds of deviation of the code from the standard that apply to this type / value:
+`ok <hex> dev=(<names...>)` or `err <class> dev=(<names...>)` -/
+def opSpec (args : List Sx) : String :=
+  match args with
+  | [.atom codec, t, v] =>
+    match sxTy? t, sxVal? v with
+    | some ty, some val =>
+      match codec with
+      | "oer" =>
+        let dev := " dev=(" ++ " ".intercalate (X696.deviations ty val) ++ ")"
+        match X696.encode ty val with
+        | .ok bs => "ok " ++ (if bs.isEmpty then "-" else toHex bs) ++ dev
+        | .error e => "err " ++ uperErr e ++ dev
+      | _ => "bad-codec"
+    | none, _ => "bad-type"
+    | _, none => "bad-value"
+  | _ => "bad-args"
+
 
 /-- `dec <codec> <ty> <hex>` -/
 def opDec (args : List Sx) : String :=
